@@ -71,6 +71,8 @@ func inertOptions(r *RNG, origin string) M {
 	if r.Bool() {
 		m["ext"] = true
 	}
+	// (creation options only) the attestation conveyance preference handed to the client: a wish, not a policy
+	m["attestation"] = hx([]byte(pick(r, []string{"", "none", "indirect", "direct", "enterprise"})))
 	return m
 }
 
